@@ -269,7 +269,7 @@ def gen_long(rng, cid, tier):
             if rng.random() < 0.35:
                 # line length (with LF) exactly around the 8192-byte buffer
                 it[0] = "R1"
-                n = 1 + rng.choice([8190, 8191, 8192, 8193, 8194]) - line_len(ts, tuple(it))
+                n = 1 + rng.choice([8190, 8191, 8192, 8193, 8193, 8194, 16384, 16385, 16385, 24577]) - line_len(ts, tuple(it))
             else:
                 n = rng.choice(LONG) + rng.choice([0, 0, -16, 16, 1])
             it[0] = f"R{n}"
